@@ -608,12 +608,17 @@ func checkInboundDispatch(c *core.Ctx, rule string) {
 		}
 		var lookup, rAll, rType *step
 		order := ""
+		// a forwarding helper is read at its call (an.Effective); its body, which the path also contains, is not read again
+		viaForwarder := map[*ssa.Call]bool{}
 		for _, in := range p.InstrSeq() {
 			call, ok := in.(*ssa.Call)
-			if !ok {
+			if !ok || viaForwarder[call] {
 				continue
 			}
 			e := an.Effective(call)
+			if e.Inner != call {
+				viaForwarder[e.Inner] = true
+			}
 			switch {
 			case an.CalleeIs(&call.Call, "fix", "ValueByTag"):
 				lookup = &step{call, e}
